@@ -454,7 +454,7 @@ func (engine) Body(r *simdrv.Run) {
 		}
 	}
 	w.perTemp = []metricdata.Temporality{metricdata.DeltaTemporality, metricdata.CumulativeTemporality}[r.Cfg(2)]
-	viewMode := r.Cfg(9) // 8: a view asking for an aggregation the instrument cannot have next to a valid renaming view, 7: wildcard name + kind criterion (filter on up-down counters only), 5: drop view in front of a keeping view on one instrument, 6: three views of which two non-adjacent ones yield the same stream; 0 none, 1 filter on counter_i, 2 rename counter_f + drop hist, 3 two views on updown, 4 histogram re-aggregated as a (renamed) sum
+	viewMode := r.Cfg(10) // 9: an incompatible view and a filtering view that yield the same stream identity; 8: a view asking for an aggregation the instrument cannot have next to a valid renaming view, 7: wildcard name + kind criterion (filter on up-down counters only), 5: drop view in front of a keeping view on one instrument, 6: three views of which two non-adjacent ones yield the same stream; 0 none, 1 filter on counter_i, 2 rename counter_f + drop hist, 3 two views on updown, 4 histogram re-aggregated as a (renamed) sum
 	w.bounds = []float64{1, 4, 16, 256, 65536}
 
 	// instruments
@@ -483,6 +483,8 @@ func (engine) Body(r *simdrv.Run) {
 			in.streams = []stream{{name: "updown_by_a", keep: []string{"a"}}, {name: "updown_all"}}
 		case viewMode == 8 && k == kCounterF:
 			in.streams = []stream{{name: "renamed_counter_f"}}
+		case viewMode == 9 && k == kCounterF:
+			in.streams = []stream{{name: in.name, keep: []string{"a"}}}
 		case viewMode == 7 && k == kUpDownI:
 			in.streams = []stream{{name: in.name, keep: []string{"a"}}}
 		}
@@ -657,6 +659,14 @@ func (engine) Body(r *simdrv.Run) {
 		opts = append(opts, sdkmetric.WithView(
 			sdkmetric.NewView(sdkmetric.Instrument{Name: "counter_f"}, sdkmetric.Stream{Aggregation: sdkmetric.AggregationLastValue{}}),
 			sdkmetric.NewView(sdkmetric.Instrument{Name: "counter_f"}, sdkmetric.Stream{Name: "renamed_counter_f"})))
+	case 9:
+		// two views match counter_f and keep its name: the first asks for a last-value aggregation, which a
+		// counter cannot have (an error at instrument creation), the second filters its attributes - the same
+		// stream identity (name, description, unit, kind, number) twice, once invalid, once valid (after seeded
+		// change C12-l, which caches the "incompatible aggregation" error under that identity)
+		opts = append(opts, sdkmetric.WithView(
+			sdkmetric.NewView(sdkmetric.Instrument{Name: "counter_f"}, sdkmetric.Stream{Aggregation: sdkmetric.AggregationLastValue{}}),
+			sdkmetric.NewView(sdkmetric.Instrument{Name: "counter_f"}, sdkmetric.Stream{AttributeFilter: keepA})))
 	case 7:
 		// every instrument matches the name pattern, only the up-down counter matches the kind (after seeded change C12-d)
 		opts = append(opts, sdkmetric.WithView(sdkmetric.NewView(sdkmetric.Instrument{Name: "*", Kind: sdkmetric.InstrumentKindUpDownCounter}, sdkmetric.Stream{AttributeFilter: keepA})))
